@@ -329,7 +329,8 @@ func (t *table) Search(key []byte, maxVs *uint64) (entry *kv.Entry, err error) {
 	if e := item.Entry(); kv.SameKey(key, e.Key) {
 		if version := kv.ParseTs(e.Key); *maxVs < version {
 			*maxVs = version
-			clone := kv.NewEntryWithCF(e.CF, kv.SafeCopy(nil, e.Key), kv.SafeCopy(nil, e.Value))
+			// An empty stored value stays an empty (non-nil) value: nil means "no value".
+			clone := kv.NewEntryWithCF(e.CF, kv.SafeCopy(nil, e.Key), append([]byte{}, e.Value...))
 			clone.ExpiresAt = e.ExpiresAt
 			clone.Meta = e.Meta
 			clone.Version = version
